@@ -13,6 +13,8 @@ Oracle (two levels, both differential against the same code):
 
 import collections
 import copy
+import json
+import os
 import re
 
 from .. import workload
@@ -35,7 +37,7 @@ ASSUMPTIONS = [
     "every operation works on its own files, so a fix in operation j cannot legitimately change the input of operation k",
 ]
 CHAINS_ENABLED = True
-PROBES = ["callback_traces_compared", "shape:natural-failure-chain", "shape:sweep-chain", "shape:after-failed-fix", "shape:plugin-dirs", "shape:dirty-chain", "dirty_chain_faults_fired", "shape:chain", "history_cli_multi_invocation", "history_api_reuse", "history_with_fault", "multi_file_op", "carrier_pair_same_group", "extension_toggled", "api_after_exception"]
+PROBES = ["callback_traces_compared", "shape:natural-failure-chain", "shape:sweep-chain", "shape:first-construct-chain", "shape:after-failed-fix", "shape:plugin-dirs", "shape:dirty-chain", "dirty_chain_faults_fired", "shape:chain", "history_cli_multi_invocation", "history_api_reuse", "history_with_fault", "multi_file_op", "carrier_pair_same_group", "extension_toggled", "api_after_exception"]
 
 
 
@@ -218,7 +220,37 @@ def chain_plan(tier):
                 span = min(60, units * (4 if phase == "token" else 1) + 2)
                 for start_ordinal in range(1, span + 1, CHAIN_WIDTH):
                     plan.append(("scan", a_name, [follower] * CHAIN_WIDTH, False, ("sweep", phase, start_ordinal)))
+    # "first construct" chains: a(t) f1 a(t) f2 ... with EVERY first-construct follower
+    # (carriers.FIRST_CONSTRUCT) behind the same abort point t, for every token / line
+    # ordinal t of the carrier: a per-file field that is dirty only inside one element is
+    # consulted by the follower's first element before anything re-establishes it
+    # (tools/witness_search.py is where the follower set comes from)
+    fc_followers = ["%" + name for name in sorted(carriers_module.FIRST_CONSTRUCT)]
+    fc_preds = [n for n in FC_PREDECESSORS if n in carriers_only] if tier == "quick" else [n for n in carriers_only if docs[n].tags.get("lines", 0) < 60]
+    counts = _carrier_counts()
+    for a_name in fc_preds:
+        estimate = {"token": docs[a_name].tags.get("lines", 1) * 3 + 2, "line": docs[a_name].tags.get("lines", 1) + 1}
+        for phase in ("token", "line"):
+            for ordinal in range(1, min(80, counts.get(a_name, estimate)[phase]) + 1):
+                for config in ("optional", "sensitive"):
+                    plan.append(("scan", a_name, fc_followers, config, ("at", phase, ordinal)))
     return plan
+
+
+FC_PREDECESSORS = [
+    "lrd_def", "lrd_partial_eof2", "h_setext", "h_setext_indented_punct", "h_atx_closed", "h_spaces", "h_punct", "h_emph",
+    "h_dup_a", "ul_mixed", "ol_ordered", "ol_bad", "ul_nested_open", "list_no_blank", "fence_back", "fence_no_blank",
+    "code_indented", "code_dollar", "bq_blank_inside", "bq_list", "ws_tabs", "ws_long_code", "in_emph_space", "in_html",
+    "html_div_start", "in_unclosed", "in_hr_dash", "pr_disable_enable", "fm_valid", "edge_crlf",
+]  # fmt: skip
+
+
+def _carrier_counts():
+    try:
+        with open(os.path.join(os.path.dirname(os.path.dirname(os.path.dirname(os.path.abspath(__file__)))), "corpus", "carrier_counts.json")) as handle:
+            return json.load(handle)
+    except (OSError, ValueError):
+        return {}
 
 
 _PLAN_CACHE = {}
@@ -229,21 +261,35 @@ def _gen_chain(tier, index):
 
     if tier not in _PLAN_CACHE:
         _PLAN_CACHE[tier] = chain_plan(tier)
-    mode, a_name, b_names, optional, dirty = _PLAN_CACHE[tier][index]
-    from .. import carriers as carriers_module
+    entry = _PLAN_CACHE[tier][index]
+    if isinstance(entry[3], str):
+        return chain_from_entry(entry, entry[3])
+    return chain_from_entry(entry, "sensitive" if index % 3 == 2 else ("optional" if entry[3] else "default"))
 
-    docs = corpus.load()
+
+def _document(name):
+    """plan names: pool document, @natural parser failure, %first-construct follower"""
+    from .. import carriers as carriers_module
+    from .. import corpus
+
+    if name.startswith("@"):
+        return carriers_module.NATURAL_PARSER_FAIL[name[1:]]
+    if name.startswith("%"):
+        return carriers_module.FIRST_CONSTRUCT[name[1:]]
+    return corpus.load()[name].data
+
+
+def chain_from_entry(entry, config):
+    mode, a_name, b_names, _, dirty = entry
     files, labels = {}, {}
     position = 0
     for b_name in b_names:
         for name in (a_name, b_name):
             path = "f%03d.md" % position
-            files[path] = carriers_module.NATURAL_PARSER_FAIL[name[1:]] if name.startswith("@") else docs[name].data
+            files[path] = _document(name)
             labels[path] = name
             position += 1
-    flags = list(ALL_OPTIONAL) if optional else []
-    if index % 3 == 2:
-        flags = list(SENSITIVE_CONFIG)
+    flags = {"default": [], "optional": list(ALL_OPTIONAL), "sensitive": list(SENSITIVE_CONFIG)}[config]
     flags = ["--continue-on-error"] + flags
     if dirty:
         flags += workload.probe_flags(["zzz999"])
@@ -268,27 +314,51 @@ def _gen_chain(tier, index):
             sc["shape"] = "natural-failure-chain"
             sc["natural_files"] = [path for path in sorted(files) if labels[path] == a_name]
             return sc
-        sweep_start = None
+        sweep_start, sweep_step = None, 1
         if isinstance(dirty, (tuple, list)):
+            # ("sweep", phase, t): the i-th copy is cut at t+i; ("at", phase, t): every copy at t
+            sweep_step = 1 if dirty[0] == "sweep" else 0
             _, dirty, sweep_start = dirty
         site_name = {"token": "cb/zzz999/next_token", "line": "cb/zzz999/next_line", "prov": "prov"}[dirty]
-        dry = cached_run(_history_request(sc, record_sites=True), sc["cls"])
+        # how many tokens / lines / provider reads the carrier has: dry run of the carrier
+        # alone under the same flags (every copy in the chain is processed identically)
+        first = sorted(files)[0]
+        dry_request = {
+            "files": {first: op["files"][first]},
+            "world": dict(NEUTRAL_WORLD),
+            "cpu": 60,
+            "ops": [{"kind": "cli", "argv": flags + [mode, first]}],
+            "record_sites": True,
+        }
+        dry = cached_run(dry_request, sc["cls"])
         if done(dry):
-            counts = collections.Counter()
+            count = 0
             for site in dry["result"]["sites"]:
-                if site[0] == site_name:
-                    counts[site[1]] = max(counts[site[1]], site[2])
+                if site[0] == site_name and site[1] == first:
+                    count = max(count, site[2])
             a_files = [path for path in sorted(files) if labels[path] == a_name and sorted(files).index(path) % 2 == 0]
             for position, path in enumerate(a_files):
-                if not counts.get(path):
+                if not count:
                     continue
-                ordinal = max(1, (counts[path] + 1) // 2) if sweep_start is None else sweep_start + position
-                if ordinal > counts[path]:
+                ordinal = max(1, (count + 1) // 2) if sweep_start is None else sweep_start + position * sweep_step
+                if ordinal > count and sweep_step == 0:
+                    ordinal = (ordinal - 1) % count + 1  # stale count table: wrap around
+                if ordinal > count:
                     continue  # the document has fewer tokens / lines than that
                 sc["plan"].append({"site": site_name, "file": path, "ord": ordinal, "act": "raise_after" if dirty != "prov" else "raise", "exc": "RuntimeError", "op": 0})
             if sweep_start is not None:
-                sc["shape"] = "sweep-chain"
+                sc["shape"] = "sweep-chain" if sweep_step else "first-construct-chain"
     return sc
+
+
+def witness_task(entry, config):
+    """tools/witness_search.py: one explicit chain, every differing file reported"""
+    scenario = chain_from_entry(tuple(entry), config)
+    scenario["report_all"] = True
+    if scenario["shape"] != "natural-failure-chain" and not scenario.get("plan"):
+        return {"violations": [], "empty": True}
+    outcome = evaluate(scenario)
+    return {"violations": outcome["violations"], "empty": False}
 
 
 def chain_count(tier):
@@ -455,7 +525,7 @@ def _history_request(sc, record_sites=False):
     return request
 
 
-TRACED_SHAPES = ("dirty-chain", "sweep-chain")
+TRACED_SHAPES = ("dirty-chain", "sweep-chain", "first-construct-chain")
 
 
 def _probe_traces(reply):
@@ -485,7 +555,7 @@ def _alone_request(sc, index):
     return {"files": op["files"], "world": dict(NEUTRAL_WORLD), "cpu": 60, "ops": [rt_op]}
 
 
-_TMP_NAME = re.compile(r"(<R>/tmp/)[A-Za-z0-9_]+")
+_TMP_NAME = re.compile(r"(<R>/tmp/)[A-Za-z0-9_.\-]+")
 
 
 def _no_tmp_names(value):
@@ -638,6 +708,8 @@ def evaluate(sc):
                             },
                         )
                     )
+                    if sc.get("report_all"):
+                        continue
                     break
                 if traced:
                     stats["callback_traces_compared"] += 1
@@ -669,7 +741,7 @@ def evaluate(sc):
                     )
                     break
     stats["shape:" + sc["shape"]] += 1
-    if sc["shape"] in ("dirty-chain", "sweep-chain"):
+    if sc["shape"] in TRACED_SHAPES:
         stats["dirty_chain_faults_fired"] += fired
     faults = {}
     if sc.get("plan"):
